@@ -103,13 +103,20 @@ def compute_reference(req, base_tmp):
             with open(ppath, 'w') as fh:
                 fh.write(req['param_text'])
         opts = materialise_options(req['options'], ppath)
-        before = record.snapshot_dir(d)
+        # calculation and writing are observed separately: a caller that does
+        # not ask for the .pka must not be expected to see the writer's errors
         try:
-            mol = propka.run.single(path, opts)
+            mol = propka.run.single(path, opts, write_pka=False)
         except Exception as err:  # the exception *is* the observation
             return record.exc_record(err)
-        return {'container': record.container_record(mol),
-                'pka_files': record.read_pka_files(d, before)}
+        rec = {'container': record.container_record(mol)}
+        before = record.snapshot_dir(d)
+        try:
+            mol.write_pka()
+        except Exception as err:
+            rec['write_exc'] = record.exc_record(err)['exc']
+        rec['pka_files'] = record.read_pka_files(d, before)
+        return rec
     finally:
         os.chdir('/')
         shutil.rmtree(d, ignore_errors=True)
